@@ -130,7 +130,7 @@ func cacheRun(t *testing.T, plan cPlan) (run cRun) {
 				if px > 0 {
 					// the key disappears at expiry: record it as a deletion at that instant
 					// Redis keeps expiries in whole milliseconds of its clock (the bubble's epoch is ms-aligned)
-					run.Writes = append(run.Writes, cWrite{AtUs: (clock.Us()/1000 + int64(px)) * 1000, Key: key, Ver: -vers[key], Kind: "expire"})
+					run.Writes = append(run.Writes, cWrite{AtUs: (clock.Us()/1000 + int64(px) + 1) * 1000, /* readable through its expiry millisecond (Redis: now > when) */ Key: key, Ver: -vers[key], Kind: "expire"})
 				}
 			case "del":
 				if r := srv.Do("DEL", key); r.I == 0 {
@@ -145,6 +145,7 @@ func cacheRun(t *testing.T, plan cPlan) (run cRun) {
 		for _, k := range plan.Initial {
 			write("set", k, 0)
 		}
+		srv.ExpireAfterMs = true // like Redis: a key is readable during its expiry millisecond, with PTTL 0
 		armed := map[string]int{}
 		refused := map[int][]string{} // per connection: keys refused in the transaction that is being queued
 		txKeys := map[int][]string{}  // per connection: keys whose PTTL was seen in that transaction
